@@ -45,6 +45,7 @@ def main():
             chk.proof_broken.append({'facts_extractor': str(err)})
         if args.replay:
             return mod.replay(chk, args.replay)
+        chk.clean_replays()
         mod.run(chk)
         signal.alarm(0)
         return chk.finish()
